@@ -63,6 +63,10 @@ def run(ctx: core.Ctx) -> int:
         c = E.gen_case(rng, ctx, X.KINDS + ["AMORPH"] * 3)
         c["precalc"] = rng.random() < 0.4
         cases.append(c)
+    for _ in range(ctx.n(40, 400)):
+        c = E.gen_pattern_tf_case(rng, ctx)
+        c["precalc"] = rng.random() < 0.4
+        cases.append(c)
     for i, c in enumerate(cases):
         ctx.count("eval_falsifier")
         falsify(ctx, c)
